@@ -13,6 +13,7 @@ import (
 	"flag"
 	"fmt"
 	"os"
+	"runtime/debug"
 	"os/exec"
 	"sort"
 	"strings"
@@ -56,6 +57,10 @@ func emit(w *bufio.Writer, v any) {
 }
 
 // evalRun runs one plan and all oracles; run is the index within this process.
+// gcOffArg: this process runs with automatic collections switched off (-gcoff);
+// child processes of the minimiser do, too.
+var gcOffArg bool
+
 func evalRun(p *Plan, run int, trace, cover bool) (*runResult, []Violation) {
 	res := runPlan(p, trace, cover)
 	viol := res.Viol
@@ -82,6 +87,16 @@ func main() {
 		fatal("usage: worker run|exec|min|gen ...")
 	}
 	nPoints = numPoints
+	for i, a := range os.Args {
+		if a == "-gcoff" {
+			// collector processes: only the collections the plans ask for happen
+			// (the allocator's behaviour is then a function of the plans alone)
+			debug.SetGCPercent(-1)
+			gcOffArg = true
+			os.Args = append(os.Args[:i:i], os.Args[i+1:]...)
+			break
+		}
+	}
 	pageInit()
 	for _, v := range versions {
 		apis[v].PtrFree() // lay out the value types now, on the main goroutine
@@ -236,6 +251,7 @@ func cmdDump(args []string) {
 	cold := fs.Bool("cold", false, "")
 	fs.Parse(args)
 	anchorSeed = mixSeed(*seed, uint64(*wk), 0xFFFFFFFF)
+	procGCMode = *wk >= gcModeBase
 	pf := planFile{Prop: *prop, Class: *class}
 	for i := 0; i <= *upto; i++ {
 		pf.Plans = append(pf.Plans, genPlanOpt(mixSeed(*seed, uint64(*wk), uint64(i)), *prop, *cold))
@@ -340,6 +356,7 @@ func cmdRun(args []string) {
 		fatal("unknown property %q", *prop)
 	}
 	anchorSeed = mixSeed(*seed, uint64(*wk), 0xFFFFFFFF)
+	procGCMode = *wk >= gcModeBase
 	w := bufio.NewWriter(os.Stdout)
 	st := &workerStats{Type: "stats", Cold: *cold, Worker: *wk, Seed: *seed, Prop: *prop, Policies: map[string]int64{}, TaskHist: map[int]int64{}, Aborts: map[string]int64{}}
 	start := time.Now()
@@ -551,6 +568,7 @@ func addStats(a, b *rt.Stats) {
 	a.SchedPoints += b.SchedPoints
 	a.Switches += b.Switches
 	a.Preemptions += b.Preemptions
+	a.GCForced += b.GCForced
 	a.PreemptInLib += b.PreemptInLib
 	a.Points += b.Points
 	a.PoolGets += b.PoolGets
@@ -667,6 +685,9 @@ func (m *minimiser) fails1(plans []*Plan) bool {
 		fatal("%v", err)
 	}
 	cmd := exec.Command(os.Args[0], "exec", "-in", m.tmp)
+	if gcOffArg {
+		cmd.Args = append(cmd.Args, "-gcoff")
+	}
 	cmd.Env = append(os.Environ(), "GORACE=halt_on_error=0 atexit_sleep_ms=0 log_path=/dev/null")
 	out, err := cmd.Output()
 	if err != nil && len(out) == 0 {
@@ -719,6 +740,7 @@ func cmdMin(args []string) {
 			fatal("regen: %v", err)
 		}
 		anchorSeed = mixSeed(seed, uint64(wk), 0xFFFFFFFF)
+		procGCMode = wk >= gcModeBase
 		pf = &planFile{Prop: prop, Class: class}
 		for i := 0; i <= upto; i++ {
 			pf.Plans = append(pf.Plans, genPlanOpt(mixSeed(seed, uint64(wk), uint64(i)), prop, cold != 0))
